@@ -209,6 +209,17 @@ func runC15(b *mon.B) {
 func c15Round(b *mon.B, r *gen.R, act *activity, caseNo, round int) {
 	sc := richConfig(r, 1)
 	users := sc.Cfg.Users
+	// every reload re-marshals, re-decodes and re-hashes the whole user list under the race
+	// detector: leave the 300-value service out of it
+	for i := range users {
+		var keep []config.Service
+		for _, sv := range users[i].Services {
+			if sv.Name != "widesvc" {
+				keep = append(keep, sv)
+			}
+		}
+		users[i].Services = keep
+	}
 	format := []string{"yaml", "json"}[(round+b.Index)%2]
 	// ---- published configurations are snapshotted as they pass to the loader
 	type published struct {
@@ -253,7 +264,7 @@ func c15Round(b *mon.B, r *gen.R, act *activity, caseNo, round int) {
 			time.Sleep(time.Duration(200+(k*2654435761>>20)%1500) * time.Microsecond)
 		}
 	}
-	ref, err := refsrv.Start(c15Gen(gen0, users, true), refsrv.Options{ViaYAML: format == "yaml", ViaJSON: format == "json", Keys: sc.Keys, Interpose: interpose, OnLog: onLog})
+	ref, err := refsrv.Start(c15Gen(gen0, users, true), refsrv.Options{ViaYAML: format == "yaml", ViaJSON: format == "json", Keys: sc.Keys, Interpose: interpose, OnLog: onLog, ExtraWriters: 2})
 	if err != nil {
 		b.Inconclusive("configuration did not load: %v", err)
 		return
@@ -534,6 +545,7 @@ func c15Round(b *mon.B, r *gen.R, act *activity, caseNo, round int) {
 	ref.Close()
 	rehash("at the end of the round")
 	b.Count("aaa_exchanges", int(exchanges))
+	b.Count("writes_to_registered_response_writers", int(ref.Tap.WriterCalls()))
 	b.Count("aaa_exchanges_without_single_reply", int(wrong))
 	b.Count("reloads", nReloads)
 	b.Count("lookup_history_operations", len(ops))
